@@ -177,8 +177,10 @@ def write_evidence(ctx, mod, proof):
         "wall_s": round(ctx.elapsed(), 2),
         "violations": len(ctx.violations),
     }
-    os.makedirs(os.path.join(VERIF, "evidence"), exist_ok=True)
-    with open(os.path.join(VERIF, "evidence", "%s.json" % ctx.pid), "w") as f:
+    # maintenance runs against scratch trees (tools/run_seeded.py) must not overwrite the evidence of /repo
+    evdir = os.environ.get("VERIF_EVIDENCE_DIR") or os.path.join(VERIF, "evidence")
+    os.makedirs(evdir, exist_ok=True)
+    with open(os.path.join(evdir, "%s.json" % ctx.pid), "w") as f:
         json.dump(common.sanitize(ev), f, indent=1, allow_nan=False)
 
 
